@@ -2553,6 +2553,17 @@ def tie_C18(ctx):
 def tie_C19(ctx):
     rng = ctx.rng
     worlds = []
+    # structural correspondence: the model represents every generator as a value and every operation as a function of its
+    # arguments (theorem `frame`), so it corresponds to code WITHOUT process-wide or thread-wide mutable state.  The one static
+    # of the pinned tree (rand_jitter's JITTER_ROUNDS cache of JitterRng::new) is exercised by the worlds below; any other one
+    # is state the model does not have — the correspondence is broken until a world shows what it does.
+    import common as _c
+    ms = _c.new_mutable_statics()
+    ctx.dist["mutable statics / thread-locals in the current sources"] = len(_c.mutable_statics(_c.REPO))
+    for crate, name, decl in ms:
+        ctx.disagreements.append(dict(family="structure: process-wide mutable state that the model does not have",
+                                      case=[f"{crate}: {decl}", "(declared in the current source, not in the pinned source the model "
+                                            "and the theorem `C19.frame` were written for)"], line=0, cmd=decl, impl="declared", model="absent"))
     for w in range(ctx.scale(30, 400)):
         n = rng.randrange(2, 7)
         gens = []
